@@ -69,7 +69,10 @@ def configs(spec, rng, nextra):
             cfg['approx_any'] = True
         if not cpl and rng.random() < 0.12:
             # totals of the whole model by (exact) finite differences, with or without a total colouring
-            cfg.update({'approx_model': True, 'coloring': rng.random() < 0.5, 'lin': 'runonce', 'jac': None,
+            # (a total colouring of approximated totals with ALIASED responses on one source raises in
+            #  _init_colored_approximations — row sizes keyed by source name —: reported, not swept here)
+            has_alias = any(r.get('alias') for r in spec['responses'])
+            cfg.update({'approx_model': True, 'coloring': rng.random() < 0.5 and not has_alias, 'lin': 'runonce', 'jac': None,
                         'approx': False, 'approx_any': False, 'rhs': None})
         if cfg['lin'] in ('runonce', 'lbgs', 'lbjac'):
             cfg['jac'] = None           # block solvers do not support assembled jacobians
